@@ -19,6 +19,10 @@ CHECKS = {
  'C13': dict(engine='B', technique='symbolic execution of the real RandomGenerator IR with z3 in an exact dyadic-integer domain (binary64 add/sub on multiples of 2^-48 is exact; side condition proved per operation)',
    text='Every loop body of the RANLUX refill equals the reference subtract-with-borrow step from ANY valid state (inductive over all stream positions), the shipped 397-step refill tiles exactly, seeding is decided for every 64-bit seed argument (equals the reference shift-register initialisation, 0->1, only low 31 bits count), draws are in [0,1), restart restores all 17 words. All obligations are z3 verdicts over symbolic state; none is sampled.',
    note='Reference recurrence transcribed in the harness (no copy of ranlxd.c offline): equality with the published stream is relative to it. A7 exactness lemma: each use discharges |n|<=2^53. Whole-run byte identity of snapshots is outside.', ref='DESIGN.md section 5 C13'),
+
+ 'C05': dict(engine='B', technique='symbolic execution of the real HLLC solver IR, two runs in one path (relational), z3 over the IEEE-UF abstraction of binary64 (rounded ops uninterpreted + ground IEEE-true axioms)',
+   text='Bit-exact antisymmetry F(R,L,-n) == -F(L,R,n) of the whole HLLC flux (mass, momentum, energy), including one-sided vacuum and vacuum generation, on every tie-free feasible path pair; z3 unsat per obligation. This is the conservation-critical clause and is exactly what sampling cannot settle (it needs moving gas next to a vacuum).',
+   note='Stated exclusions: ties of computed comparisons, computed quantities guarded by +DBL_MIN within 2^-940 of zero, misordered rounded fan edges on vacuum generation, inputs 0 or within [2^-100,2^100] (no overflow/underflow). Outside: Galilean invariance, textbook-HLLC equality, continuity, 1.5 c_s clause (round-off level statements).', ref='DESIGN.md section 5 C05'),
 }
 NA = {
 }
